@@ -495,3 +495,26 @@ def refill_before_read_rule(model: Model, rep: Report, rid: str, f: FuncInfo) ->
         r.check(wit is None, site(f, n.ast), f.qualname, f"`{unparse(n.ast)[:60]}` reads the buffer after the refill of this iteration", why="a path from the top of the iteration reaches this read without self.fillbuf(): when the previous iteration consumed the buffer's last byte (a CR), the look-ahead sees an empty slice and the LF of a CR LF pair is returned as a separate, empty line")
     if k == 0:
         raise AnchorMissing(f"{f.qualname}: no buffer read in the loop")
+
+
+def state_change_not_in_try(model: Model, rep: Report, rid: str) -> None:
+    """The scanner automaton is extracted from the fall-through paths of each scanner.  A state change (`self._parse1 = ...`)
+    inside a `try` whose handler swallows the exception would have a second, unextracted path on which the state is not
+    changed and nothing is consumed - the driver would spin.  So: no store to self._parse1 inside such a try body."""
+    r = rep.rule(rid, "EXC", "scanner state changes are unconditional: no `self._parse1 = ...` inside a try body whose handler swallows the exception (such a path would neither advance nor change state)", 2)
+    base = "pdfminer.psparser.PSBaseParser."
+    n_try = 0
+    for q, f in sorted(model.funcs.items()):
+        if not q.startswith(base + "_parse_") or f.parent is not None:
+            continue
+        for t in walk_no_nested(f.node):
+            if not isinstance(t, ast.Try):
+                continue
+            swallowing = [h for h in t.handlers if not any(isinstance(x, ast.Raise) for x in ast.walk(ast.Module(body=h.body, type_ignores=[])))]
+            if not swallowing:
+                continue
+            n_try += 1
+            stores = [n for st in t.body for n in ast.walk(st) if isinstance(n, ast.Attribute) and isinstance(n.ctx, ast.Store) and n.attr == "_parse1"]
+            r.check(not stores, site(f, stores[0] if stores else t), f.qualname, f"try body of {f.name} holds no state change", why="`self._parse1 = ...` sits in a try whose handler swallows the exception: when the guarded conversion fails the scanner returns the unconsumed delimiter while still in the same state, and nexttoken() loops forever at that position")
+    if n_try < 2:
+        raise AnchorMissing("scanner try blocks (number / float / literal conversions) not found")
